@@ -19,7 +19,7 @@ func mutateTokens(p *program, r *kit.Rand) (string, string) {
 	toks := append([]tok(nil), p.toks...)
 	n := len(toks)
 	name := ""
-	k := r.Pick(1, 4, 3, 3, 3, 3, 3, 4, 2, 2, 2)
+	k := r.Pick(1, 4, 3, 3, 3, 3, 3, 4, 2, 2, 2, 4, 2)
 	if k >= 7 && k <= 9 && len(p.els) == 0 {
 		k = 1
 	}
@@ -75,6 +75,26 @@ func mutateTokens(p *program, r *kit.Rand) (string, string) {
 		name = "change-gap"
 		i := r.Intn(n)
 		toks[i].g = kit.Choose(r, []gap{gTight, gGlue, gSpace, gLine})
+	case 11:
+		// a Go keyword / API keyword where a word stands (mostly: where an identifier is required),
+		// or a plain identifier where a keyword is required
+		name = "keyword-for-word"
+		var pos []int
+		for i, t := range toks {
+			if isWordToken(t.s) {
+				pos = append(pos, i)
+			}
+		}
+		if len(pos) == 0 {
+			name = "none"
+			break
+		}
+		toks[pos[r.Intn(len(pos))]].s = kit.Choose(r, substWords)
+	case 12:
+		// cut the program at a token and end it with a lexeme the scanner itself fails at
+		name = "cut-and-poison"
+		i := r.Intn(n)
+		toks = append(toks[:i:i], tok{gFree, kit.Choose(r, cutEndings[1:]), -1})
 	}
 	q := &program{toks: toks}
 	lc := layoutCfg{mode: layCanonical}
@@ -83,6 +103,19 @@ func mutateTokens(p *program, r *kit.Rand) (string, string) {
 	}
 	s, _ := render(q, r.Uint64(), lc)
 	return s, name
+}
+
+func isWordToken(s string) bool {
+	if s == "" {
+		return false
+	}
+	for i := 0; i < len(s); i++ {
+		c := s[i]
+		if !(c == '_' || (c >= '0' && c <= '9') || (c >= 'a' && c <= 'z') || (c >= 'A' && c <= 'Z')) {
+			return false
+		}
+	}
+	return true
 }
 
 // byte-level mutations of a source text
@@ -183,7 +216,15 @@ var handWritten = []string{
 	"@server(a:1s2) service x {}", "@server(a:1x) service x {}", "@server(:b) service x {}", "@server(a:b c) service x {}", "@server(a:b", "@server(a:*) service x{}",
 	"1", "1s", "1m1", "1h1m1s1ms1µs1ns", "1µ", "1n", "1ms1", "..", "...", ".", "a.b", "interface{", "interface{}", "interface", "}", ")", "]", "{", "(", "[", ";", ":", ",", "=", "-",
 	"syntax = \"v1\"\x00type", "type T {\n A int\x00}", "\ufeffsyntax = \"v1\"", "syntax = \"v1\" /*", "syntax = \"v1\" //", "type T { A int // c", "type T { A int /* c",
-	"type T {\n\tA\n}", "type T {\n\tA `t`\n}", "type T {\n\t*A `t`\n}", "type T {\n\tA\n\tB\n}", "type T {\nA /*\n*/ int\n}", "type T {\nA `a\nb`\n}",
+	// malformed and compound duration literals (every branch of the scanner's duration automaton)
+	"1nx", "1µx", "1µs5x", "1µs5n", "1ms5x", "1ms5nx", "1s5x", "1s5mx", "1s5m", "1m5x", "1m5mx", "1m5m", "1h5x", "1h5", "1h5h", "1m5", "1s5",
+	"@server(a:1nx) service x {}", "@server(a:1µs5x) service x {}", "@server(a:1ms5x) service x {}", "@server(a:1s5mx) service x {}",
+	"@server(a:1m5mx) service x {}", "@server(a:1h5x) service x {}", "@server(a:1h5m3s2ms1µs1ns) service x {}", "@server(a:1s5) service x {}",
+	// a Go keyword in every name position of a member list
+	"type T { A, func string }", "type T { A, B, select int64 }", "type T {\n\tA, type string\n}", "type ( T { X { A, go int } } )",
+	"type T { func, A string }", "type T { A func }", "type T { A, B }", "type T { A,, B int }", "type T { A, 1 int }", "type T { A, *B int }",
+	"type T { A, B, }", "type T { A,\nB int }", "type T { map string }", "type T { A map }", "type func {}", "type T = func", "type T { *func }",
+	"type T {\n\tA `t`\n}", "type T {\n\tA\n}", "type T {\n\t*A `t`\n}", "type T {\n\tA\n\tB\n}", "type T {\nA /*\n*/ int\n}", "type T {\nA `a\nb`\n}",
 }
 
 // deepNesting builds sources whose nesting depth is d.
